@@ -361,7 +361,8 @@ impl Disassembler {
                 // suffix forcing appears to be the most universal
                 new_line.suffix = match operand_bytes {
                     2 if val < 0x100 && op.abs_suffixable => ":".to_string(),
-                    3 if val < 0x10000 && op.absl_suffixable => "L".to_string(),
+                    // always force: the assembler never selects long addressing from the value alone
+                    3 if op.absl_suffixable => "L".to_string(),
                     _ => String::new()
                 };
                 new_line.prefix = match operand_bytes {
